@@ -24,6 +24,9 @@ def catalogue(tier):
         "D": B.Cfg(8, 2, 0, 1, False, 2, 1, 2, False, Fuel=20, MaxNodes=63),
         # cache_size = 0
         "E": B.Cfg(4, 2, 0, 0, False, 0, 1, 2, False, Fuel=20, MaxEval=3),
+        # dyadic tree over an interval that is NOT a power of two tolerances long: rounded midpoints are off-centre
+        # ([0,3] splits at round(1.5) = 2), so children of one node have different lengths
+        "H6": B.Cfg(6, 2, 2, 2, True, 0, 1, 2, False, Fuel=20, MaxNodes=31),
     }
     if tier == "thorough":
         C.update({
